@@ -180,19 +180,29 @@ static void hc_esc(char *out, size_t cap, const void *d, size_t n)
 	out[o] = 0;
 }
 
-/* TCP listener on 127.0.0.1:ephemeral, harness side, non-blocking */
+/* TCP listener on 127.0.0.1:ephemeral, harness side, non-blocking.  No SO_REUSEADDR: with it the kernel may hand
+ * the same ephemeral port to two sockets that are bound but not yet listening (other workers / other checks on
+ * this machine do the same), and the second listen() fails with EADDRINUSE.  A few retries for good measure. */
 static int hc_listener(int *port)
 {
-	struct sockaddr_in sin; socklen_t sl = sizeof sin; int one = 1;
-	int fd = socket(AF_INET, SOCK_STREAM, 0);
-	memset(&sin, 0, sizeof sin);
-	sin.sin_family = AF_INET; sin.sin_addr.s_addr = htonl(INADDR_LOOPBACK);
-	setsockopt(fd, SOL_SOCKET, SO_REUSEADDR, &one, sizeof one);
-	if (fd < 0 || bind(fd, (struct sockaddr *)&sin, sizeof sin) < 0 || listen(fd, 8) < 0 ||
-	    getsockname(fd, (struct sockaddr *)&sin, &sl) < 0) { mc_fail("harness:listener", "%s", strerror(errno)); return -1; }
-	hc_nonblock(fd);
-	*port = ntohs(sin.sin_port);
-	return fd;
+	int err = 0;
+	for (int attempt = 0; attempt < 50; attempt++) {
+		struct sockaddr_in sin; socklen_t sl = sizeof sin;
+		int fd = socket(AF_INET, SOCK_STREAM, 0);
+		if (fd < 0) { err = errno; continue; }
+		memset(&sin, 0, sizeof sin);
+		sin.sin_family = AF_INET; sin.sin_addr.s_addr = htonl(INADDR_LOOPBACK);
+		if (bind(fd, (struct sockaddr *)&sin, sizeof sin) == 0 && listen(fd, 8) == 0 &&
+		    getsockname(fd, (struct sockaddr *)&sin, &sl) == 0) {
+			hc_nonblock(fd);
+			*port = ntohs(sin.sin_port);
+			return fd;
+		}
+		err = errno;
+		close(fd);
+	}
+	mc_fail("harness:listener", "%s", strerror(err));
+	return -1;
 }
 
 /* give an outgoing evhttp_connection created with ..._reuse_new a peer address so
